@@ -19,22 +19,37 @@ LEVEL_TEXT = ('Partial. Coq theorems over R about kernels regenerated from Tenso
               'differences on every run). First stage of eigen_sym33_non_unit (generated as a prefix of the routine: mean c1, invariants c2, c3, '
               'trisection argument rr, trigonometric root eval2 with the Pade kernel): x^3+c2 x+c3 is the characteristic polynomial of the deviator '
               'of sym A; for c2<0 and |rr|<=1 the residual of eval2 is <= 2e-13 (-c2/3)^(3/2) and eval2 is within 4e-14 sqrt(-c2/3) of an exact root '
-              'that has the largest magnitude among the roots; |rr|<=1 whenever the cubic has three real roots. Not proved there: the spectral '
-              'theorem itself, the other two eigenvalues (deflation + Wilkinson shift, not the trigonometric formula), eigenvectors, the final '
-              'argsort, rounding. The accuracy of eigen_sym33_unit, sqrt/exp/log/pow_symm, their '
+              'that has the largest magnitude among the roots; |rr|<=1 whenever the cubic has three real roots. Round 4, the part of the routine '
+              'AFTER the trigonometric root (pivoted deflation, 2x2 Wilkinson shift, eigenvectors; the source segment eval2..evec1 regenerated as '
+              'four stage kernels cut at ki_ki / evec2 / eval1 and chained in eig_compose): for a traceless symmetric D and an exact SIMPLE root '
+              'lam of x^3+c2 x+c3 (3 lam^2+c2 != 0, which alone implies a nonzero pivot row and a nonzero Gram-Schmidt residual), eval0 and eval1 '
+              'are exactly the other two roots (the polynomial factors as (x-lam)(x-eval0)(x-eval1)), evec2/evec0/evec1 are nonzero, mutually '
+              'orthogonal and D evec = eval evec for each, in every branch of the routine (three pivots, either residual, both signs of the '
+              'shift, both vector formulas, the both_zero override); the exact trigonometric root is always simple, so the deflation run with it '
+              'is exact. Not proved there: the spectral theorem itself, the deflation run with the COMPUTED (4e-14-perturbed) eval2, double roots, '
+              'the isotropic fallback and the final argsort, that eig_compose equals the one-piece segment kernel eig_deflate as Coq terms '
+              '(conversion needs 3 minutes; both are executed at binary64 and compared bit for bit on every run), rounding. '
+              'LinAlg.sqrtm_dbp (Denman-Beavers product form; 3x3 hand model of the loop body with the generated TensorMath.inv, tied by a '
+              'correspondence stream): for any scale factors and as long as the scaled M stay invertible, X_k^2 = A M_k and X_k M_k = M_k X_k, '
+              'hence X^2 - A = A (M - I) for the returned X (the exit test bounds the residual; M = I iff X^2 = A). Not proved: convergence, '
+              'invertibility along the path, sizes other than 3, logm_iss. The accuracy of eigen_sym33_unit, sqrt/exp/log/pow_symm, their '
               'JVP rules, sqrtm and logm_iss is NOT proved for all inputs: every explored instance is certified by Coq result checkers '
               '(proved sound) executed by vm_compute on the exact rational values of the implementation outputs; the derivative '
               'rules of sqrt/log/exp/pow_symm are compared per instance (Coq checker) with the closed-form Daleckii-Krein derivative whose '
               'divided differences are computed in 60-digit arithmetic, and with central differences (tests, not proofs).')
 TECHNIQUE = 'Coq proof (Reals + Interval) over regenerated kernels; proved-sound result checkers over Q run by vm_compute on implementation outputs'
-GEN = ['Math', 'TensorMath', 'TensorMathFun']
-TARGETS = ['model/M_C08.vo', 'proofs/L_C08.vo', 'model/M_C12.vo', 'proofs/L_C12.vo', 'proofs/L_C12_RD.vo', 'model/M_C12_Trig.vo', 'proofs/L_C12_Trig.vo']
-COQ_FILES = ['base/Num.v', 'model/M_C12.v', 'model/M_C12_Trig.v', 'proofs/L_C12.v', 'proofs/L_C12_RD.v', 'proofs/L_C12_Trig.v', 'props/P_C12.v']
+GEN = ['Math', 'TensorMath', 'TensorMathFun', 'TensorMathEig']
+TARGETS = ['model/M_C08.vo', 'proofs/L_C08.vo', 'model/M_C12.vo', 'proofs/L_C12.vo', 'proofs/L_C12_RD.vo', 'model/M_C12_Trig.vo', 'proofs/L_C12_Trig.vo',
+           'model/M_C12_Defl.vo', 'proofs/L_C12_Defl.vo', 'model/M_C12_DBP.vo', 'proofs/L_C12_DBP.vo']
+COQ_FILES = ['base/Num.v', 'model/M_C12.v', 'model/M_C12_Trig.v', 'proofs/L_C12.v', 'proofs/L_C12_RD.v', 'proofs/L_C12_Trig.v',
+             'model/M_C12_Defl.v', 'proofs/L_C12_Defl.v', 'model/M_C12_DBP.v', 'proofs/L_C12_DBP.v', 'props/P_C12.v']
 BUILD_TIMEOUT = 1500
 TRUSTED = ['Coq 8.16.1 kernel + vm_compute (no native_compute); coq-interval for the Pade bound (PrimFloat/Uint63 primitives)',
            'tools/vlib/py2coq.py translator, cross-checked by running the generated scalar kernels at binary64 against the implementation',
            'harness: exact float -> rational conversion (Fraction), construction of the test tensors, the tolerances stated in the evidence',
-           'jax.scipy.linalg.expm is used as the reference when checking logm_iss (expm(logm A) ~ A)']
+           'jax.scipy.linalg.expm is used as the reference when checking logm_iss (expm(logm A) ~ A)',
+           'translator option `segment` (a middle stretch of a straight-line routine with its live-in locals as parameters); the numpy replica '
+           'of the sqrtm_dbp loop in the harness (source of the scale factors fed to the Coq model)']
 ASSUMPTIONS = ['exact real arithmetic in theorems (a)-(c)',
                'checker verdicts certify the explored instances only, with the stated tolerances (1e-11 relative for decompositions / '
                'identities in a single compiled call, 1e-9 inside compiled batches and for derivative identities, 1e-6 relative for central-difference comparisons)',
@@ -46,6 +61,13 @@ ASSUMPTIONS = ['exact real arithmetic in theorems (a)-(c)',
                'jax.argsort is stable (ties keep the operand order) -- the translator models argsort of a 2-vector as a swap iff the second entry is strictly smaller',
                'trig-stage theorems: hypothesis |rr| <= 1 (clamp inactive), which holds for every real symmetric tensor in exact arithmetic by '
                'the spectral theorem (not proved; C12_trig_argument_bounded derives it from three real roots)',
+               'deflation theorems: exact real arithmetic, lam an exact simple root of the characteristic polynomial of the deviator (the routine '
+               'runs it with the Pade-computed eval2, within 4e-14 sqrt(-c2/3) of such a root by C12_trig_root_error)',
+               'eig_compose (the chained stage kernels the theorems are about) equals the one-piece segment eig_deflate: by bit-exact execution '
+               'at binary64 on every run, not as a Coq equality; generated eig_full_pre vs implementation: eigenvalues 1e-12 max|A|, '
+               'normalised eigenvectors 1e-9 at relative gaps >= 1e-4; Vieta / eigenvector conclusions on the implementation: 1e-12 / 1e-10 relative',
+               'Denman-Beavers: hypothesis dbp_regular (every scaled M_k invertible); the scale factors are inputs of the model (logged from a '
+               'numpy replica of the loop whose X and pass count are compared with LinAlg.sqrtm_dbp: 1e-9 relative, +-1 pass); 3x3 only',
                'jax.jvp applies the custom rules that the library registers']
 RULE = ('symmetric 3x3 tensors A = s R diag(l) R^T: s over 1e-20..1e20 (40 decades), eigenvalue gaps exactly 0 (diagonal / permuted '
         'construction), 1e-14..1 relative, rank deficient, generic and in-plane block orientations; each evaluated as a single compiled '
@@ -55,7 +77,10 @@ RULE = ('symmetric 3x3 tensors A = s R diag(l) R^T: s over 1e-20..1e20 (40 decad
         'functions); derivative-rule cases stratified over relative gaps 1e-9..1e-3 of one eigenvalue pair, tensor magnitudes 1e-10..1e6 with '
         'well separated eigenvalues, and nearly hydrostatic states, with random symmetric directions plus a shear inside the close pair; '
         'eigenvalue pairs for the relative-difference kernels: nearly equal (1e-14..4e-2 relative), around the 5 % Taylor switch, around the '
-        'small/big = 1/2 switch, ratios down to 1e-3, both operand orders, exponents m in +-[0.25, 3]')
+        'small/big = 1/2 switch, ratios down to 1e-3, both operand orders, exponents m in +-[0.25, 3]; round 4: the same tensor kinds '
+        '(magnitudes 1e-2..1e2) through eigen_sym33_non_unit for the deflation streams (pivot-row distribution printed), raw random '
+        'arguments with exact zeros for the kernel-equality stream; 3x3 matrices with spectrum in [0.1, 10], symmetric and non-symmetric, '
+        'for the Denman-Beavers stream')
 IMPORTS = ['From OV.gen Require Import Gen_TensorMathFun.', 'From OV.model Require Import M_C12.']
 
 TOL = 1e-11    # single compiled call
@@ -658,6 +683,223 @@ def l1_trig(ctx):
     ctx.count('trig_stage_mismatches', mism)
 
 
+IMPORTS_EIG = ['From OV.gen Require Import Gen_TensorMathEig.', 'From OV.model Require Import M_C12_Defl.']
+TOLE = 1e-12   # eigenvalues of the binary64 model vs the jitted implementation, relative to max|A| (measured <= 2e-15)
+
+
+def _dev6(A):
+    """the deviatoric entries exactly as eigen_sym33_non_unit computes them (same operations, same order, binary64)"""
+    cxx, cyy, czz = float(A[0][0]), float(A[1][1]), float(A[2][2])
+    cxy = 0.5 * (float(A[0][1]) + float(A[1][0]))
+    cyz = 0.5 * (float(A[1][2]) + float(A[2][1]))
+    czx = 0.5 * (float(A[2][0]) + float(A[0][2]))
+    c1 = (cxx + cyy + czz) / 3.0
+    return c1, [cxx - c1, cyy - c1, czz - c1, cxy, cyz, czx]
+
+
+def l1_defl(ctx):
+    """round 4: the part of eigen_sym33_non_unit after the trigonometric root.
+    (i) the generated whole-routine prefix eig_full_pre (first statement .. evec1) executed at binary64 versus the implementation:
+        eigenvalues (after the routine's own fallback select and sort, done here) within 1e-12 max|A|; eigenvectors (non-unit, compared
+        after normalisation, up to sign) within 1e-9 when the relative eigenvalue gap is >= 1e-4;
+    (ii) exact structural tie of the kernels the theorems are about: eig_compose (the four stage kernels chained in model/M_C12_Defl.v)
+        and the one-piece segment kernel eig_deflate give bit-identical results, and both reproduce the corresponding outputs of
+        eig_full_pre bit for bit when fed the deviatoric entries and eval2 (on tensors, and on raw random arguments incl. zeros);
+    (iii) the conclusion of C12_deflation_exact on the IMPLEMENTATION's outputs in exact rational arithmetic: the elementary symmetric
+        functions of the three returned eigenvalues equal trace / second invariant / determinant of sym A (Vieta) and every returned
+        (non-unit) vector satisfies |S v - lambda v| <= 1e-10 max|A| |v|."""
+    import jax.numpy as np
+    import numpy as onp
+    import optimism  # noqa: F401
+    from optimism import TensorMath as TM
+    from fractions import Fraction
+    r = ctx.rng('l1defl')
+    f = jf('eig_non_unit', TM.eigen_sym33_non_unit, False)
+    cases, ex_full = [], []
+    for _ in range(ctx.n(48, 480)):
+        A, kind, gap = gen_sym(r, wide=False)
+        A = onp.array(A)
+        cases.append((A, kind, gap))
+        ex_full.append("fencs (let '(c1, c2, e0, e1, e2, u0, u1, u2, w0, w1, w2, v0, v1, v2) := eig_full_pre %s in "
+                       "[c1; c2; e0; e1; e2; u0; u1; u2; w0; w1; w2; v0; v1; v2])" % ' '.join(C.cf(float(x)) for x in A.reshape(-1)))
+    res_full = C.coq_eval(IMPORTS_EIG, ex_full, 'C12eigf', shard=120)
+    pat = ("fencs (let '(e0, e1, u0, u1, u2, w0, w1, w2, v0, v1, v2) := %s %s in [e0; e1; u0; u1; u2; w0; w1; w2; v0; v1; v2])")
+    ex_seg, seg_meta = [], []
+    for (A, kind, gap), zs in zip(cases, res_full):
+        c1m, d6 = _dev6(A)
+        out = C.dec_floats(zs)
+        if not (c1m == out[0] or (c1m != c1m and out[0] != out[0])):
+            ctx.fail('correspondence', 'harness replica of the mean differs from the generated kernel (%r vs %r)' % (c1m, out[0]),
+                     case=dict(check='correspondence', kernel='eig_full_pre', kind=kind, gap=gap, batch=False, A=A.tolist()))
+            continue
+        args = ' '.join(C.cf(x) for x in d6 + [out[4]])
+        ex_seg += [pat % ('eig_deflate', args), pat % ('eig_compose', args)]
+        seg_meta.append((A, kind, gap, zs))
+    raw = []
+    for k in range(ctx.n(12, 80)):           # raw arguments: not traceless, lam not an eigenvalue, exact zeros -> inf / nan paths included
+        d6 = [r.choice([0.0, r.uniform(-2, 2), r.uniform(-2, 2) * 10.0 ** r.uniform(-8, 0)]) for _ in range(6)]
+        lam = r.choice([0.0, d6[0], r.uniform(-3, 3)])
+        args = ' '.join(C.cf(x) for x in d6 + [lam])
+        ex_seg += [pat % ('eig_deflate', args), pat % ('eig_compose', args)]
+        raw.append(d6 + [lam])
+    res_seg = C.coq_eval(IMPORTS_EIG, ex_seg, 'C12eigs', shard=160)
+    bad = 0
+    for i, (A, kind, gap, zs) in enumerate(seg_meta):
+        zd, zc = res_seg[2 * i], res_seg[2 * i + 1]
+        ctx.count('deflation_segment_vs_routine_exact')
+        want = zs[4:8] + zs[10:]          # (eval0, eval1) and the nine vector components, as (mantissa, exponent) pairs
+        if zd != want or zc != zd:
+            bad += 1
+            if bad < 5:
+                ctx.fail('correspondence', 'the segment kernels disagree bit-wise: eig_deflate %s eig_full_pre, eig_compose %s eig_deflate [%s]'
+                         % ('==' if zd == want else '!=', '==' if zc == zd else '!=', kind),
+                         case=dict(check='correspondence', kernel='eig_deflate/eig_compose', kind=kind, gap=gap, batch=False, A=A.tolist()))
+    for j, a in enumerate(raw):
+        zd, zc = res_seg[2 * (len(seg_meta) + j)], res_seg[2 * (len(seg_meta) + j) + 1]
+        ctx.count('deflation_compose_vs_segment_raw_exact')
+        if zd != zc:
+            bad += 1
+            if bad < 5:
+                ctx.fail('correspondence', 'eig_compose and eig_deflate disagree bit-wise on raw arguments %r' % (a,),
+                         case=dict(check='correspondence', kernel='eig_compose', kind='raw', gap=1.0, batch=False, A=a))
+    ctx.count('deflation_kernel_mismatches', bad)
+    # ---- (i) model vs implementation, (iii) conclusions on the implementation
+    mism = 0
+    for (A, kind, gap), zs in zip(cases, res_full):
+        c1, c2, e0, e1, e2, u0, u1, u2, w0, w1, w2, v0, v1, v2 = C.dec_floats(zs)
+        ev, V = f(np.array(A))
+        ev, V = onp.array(ev), onp.array(V)
+        nA = float(onp.max(onp.abs(A)))
+        ctx.count('deflation_model_vs_impl')
+        if c2 < c1 * c1 * (-1e-30):
+            lam_m = [e0 + c1, e1 + c1, e2 + c1]
+            vec_m = [[u0, u1, u2], [w0, w1, w2], [v0, v1, v2]]
+            _, d6 = _dev6(A)
+            ks = [(d6[0] - e2) ** 2 + d6[3] ** 2 + d6[5] ** 2, d6[3] ** 2 + (d6[1] - e2) ** 2 + d6[4] ** 2, d6[5] ** 2 + d6[4] ** 2 + (d6[2] - e2) ** 2]
+            ctx.count('deflation_pivot_row_%d' % (0 if ks[1] <= ks[0] and ks[2] <= ks[0] else (1 if ks[2] <= ks[1] else 2)))
+        else:
+            lam_m, vec_m = [c1, c1, c1], [[1.0, 0.0, 0.0], [0.0, 1.0, 0.0], [0.0, 0.0, 1.0]]
+            ctx.count('deflation_isotropic_fallback')
+        idx = sorted(range(3), key=lambda i: lam_m[i])
+        ok = all(abs(lam_m[idx[j]] - float(ev[j])) <= TOLE * nA for j in range(3))
+        if ok and gap >= 1e-4:
+            for j in range(3):
+                vm, vi = onp.array(vec_m[idx[j]]), V[:, j]
+                cs = abs(float(vm @ vi)) / (float(onp.linalg.norm(vm)) * float(onp.linalg.norm(vi)) + 1e-300)
+                ctx.count('deflation_eigenvector_comparisons')
+                ok = ok and cs >= 1 - 1e-9
+        if not ok:
+            mism += 1
+            if mism < 5:
+                ctx.fail('correspondence', 'generated eig_full_pre gives eigenvalues %r, implementation %r (max|A| = %.3g) [%s, gap %.3g]'
+                         % ([lam_m[i] for i in idx], ev.tolist(), nA, kind, gap),
+                         case=dict(check='correspondence', kernel='eig_full_pre', kind=kind, gap=gap, batch=False, A=A.tolist()))
+            continue
+        S = [[(Fraction(float(A[i, j])) + Fraction(float(A[j, i]))) / 2 for j in range(3)] for i in range(3)]
+        tr = S[0][0] + S[1][1] + S[2][2]
+        i2 = S[0][0] * S[1][1] + S[1][1] * S[2][2] + S[2][2] * S[0][0] - S[0][1] ** 2 - S[1][2] ** 2 - S[2][0] ** 2
+        dt = (S[0][0] * (S[1][1] * S[2][2] - S[1][2] * S[2][1]) - S[0][1] * (S[1][0] * S[2][2] - S[1][2] * S[2][0])
+              + S[0][2] * (S[1][0] * S[2][1] - S[1][1] * S[2][0]))
+        L = [Fraction(float(x)) for x in ev]
+        errs = [abs(L[0] + L[1] + L[2] - tr) / Fraction(nA), abs(L[0] * L[1] + L[1] * L[2] + L[2] * L[0] - i2) / Fraction(nA) ** 2,
+                abs(L[0] * L[1] * L[2] - dt) / Fraction(nA) ** 3]
+        ctx.count('deflation_vieta_conclusion_checks')
+        if not all(float(e) <= 1e-12 for e in errs):
+            ctx.fail('conclusion', 'eigenvalues %r of eigen_sym33_non_unit violate Vieta (trace / second invariant / determinant errors %s relative) [%s, gap %.3g]'
+                     % (ev.tolist(), ['%.3g' % float(e) for e in errs], kind, gap),
+                     case=dict(check='deflation Vieta', kind=kind, gap=gap, batch=False, A=A.tolist(), lam=ev.tolist()), concrete=True)
+        for j in range(3):
+            v = [Fraction(float(x)) for x in V[:, j]]
+            nv = max(abs(float(x)) for x in V[:, j])
+            res = max(abs(sum(S[i][m] * v[m] for m in range(3)) - L[j] * v[i]) for i in range(3))
+            ctx.count('deflation_eigenvector_conclusion_checks')
+            if not (nv > 0 and float(res) <= 1e-10 * nA * nv):
+                ctx.fail('conclusion', 'column %d of eigen_sym33_non_unit is not an eigenvector: |S v - lambda v| = %.3g, max|A| |v| = %.3g [%s, gap %.3g]'
+                         % (j, float(res), nA * nv, kind, gap),
+                         case=dict(check='deflation eigenvector', kind=kind, gap=gap, batch=False, A=A.tolist(), lam=ev.tolist(), V=V.tolist()), concrete=True)
+                break
+    ctx.count('deflation_model_mismatches', mism)
+
+
+IMPORTS_DBP = ['From OV.model Require Import M_C08 M_C12_DBP.']
+
+
+def _dbp_replica(A):
+    """statement-by-statement numpy replica of LinAlg.sqrtm_dbp (dim = 3): -> (X, k, scale factors, worst relative defect of the
+    invariant X_k^2 = A M_k over the passes)"""
+    import numpy as onp
+    dim = 3
+    eps = 2.220446049250313e-16
+    tol = 0.5 * math.sqrt(dim) * eps
+    I = onp.identity(dim)
+    X, M, err, k, diff = A.copy(), A.copy(), 1.7976931348623157e308, 0, 0.02
+    gs, worst = [], 0.0
+    while k < 32 and err > tol:
+        g = 1.0 / abs(onp.linalg.det(M)) ** (1.0 / (2.0 * dim)) if diff >= 0.01 else 1.0
+        gs.append(float(g))
+        X = X * g
+        M = M * (g * g)
+        Y = X
+        N = onp.linalg.inv(M)
+        X = 0.5 * X @ (I + N)
+        M = 0.5 * (I + 0.5 * (M + N))
+        err = onp.linalg.norm(M - I, 'fro')
+        diff = onp.linalg.norm(X - Y, 'fro') / onp.linalg.norm(X, 'fro')
+        k += 1
+        worst = max(worst, float(onp.max(onp.abs(X @ X - A @ M)) / onp.max(onp.abs(A @ M))))
+    return X, k, gs, worst
+
+
+def l1_dbp(ctx):
+    """round 4: the Denman-Beavers hand model (model/M_C12_DBP.v) versus LinAlg.sqrtm_dbp on 3x3 matrices with positive spectrum.
+    A numpy replica of the loop supplies the scale factors g_k (the model takes them as inputs) and the pass count; the pass count
+    must equal the implementation's (+-1: the exit test compares a rounding-level quantity with 1.9e-16), the replica's X and the
+    Coq model's X (binary64, dbp_iter over the logged factors) must equal the implementation's X to 1e-9 relative.  Conclusion of
+    C12_dbp_invariant on the replica's iterates: |X_k^2 - A M_k| <= 1e-10 |A M_k| at every pass."""
+    import jax.numpy as np
+    import numpy as onp
+    import optimism  # noqa: F401
+    from optimism import LinAlg
+    r = ctx.rng('l1dbp')
+    cases, exprs = [], []
+    for k in range(ctx.n(10, 80)):
+        Xr = onp.array([[r.gauss(0, 1) for _ in range(3)] for _ in range(3)])
+        w = onp.array([10.0 ** r.uniform(-1, 1) for _ in range(3)])
+        if k % 2 == 0:
+            Qm, _ = onp.linalg.qr(Xr)
+            A = (Qm * w) @ Qm.T
+            A = 0.5 * (A + A.T)
+        else:
+            Xr = Xr + 3 * onp.eye(3)
+            A = Xr @ onp.diag(w) @ onp.linalg.inv(Xr)
+        Xi, ki = LinAlg.sqrtm_dbp(np.array(A))
+        Xi, ki = onp.array(Xi), int(ki)
+        Xp, kp, gs, worst = _dbp_replica(A)
+        cases.append((A, Xi, ki, Xp, kp, gs, worst))
+        exprs.append('fencs (let X := fst (dbp_iter [%s] (%s, %s)) in [m00 X; m01 X; m02 X; m10 X; m11 X; m12 X; m20 X; m21 X; m22 X])'
+                     % ('; '.join(C.cf(g) for g in gs), 'mk ' + ' '.join(C.cf(float(x)) for x in A.reshape(-1)),
+                        'mk ' + ' '.join(C.cf(float(x)) for x in A.reshape(-1))))
+    res = C.coq_eval(IMPORTS_DBP, exprs, 'C12dbp', shard=40)
+    mism = 0
+    for (A, Xi, ki, Xp, kp, gs, worst), zs in zip(cases, res):
+        Xm = onp.array(C.dec_floats(zs)).reshape(3, 3)
+        sc = float(onp.max(onp.abs(Xi)))
+        e_rep, e_mod = float(onp.max(onp.abs(Xp - Xi))) / sc, float(onp.max(onp.abs(Xm - Xi))) / sc
+        ctx.count('dbp_model_vs_impl')
+        ctx.count('dbp_passes_%02d' % ki)
+        meta = dict(check='correspondence', kernel='sqrtm_dbp', kind='dense n=3', gap=1.0, batch=False, A=A.tolist())
+        if abs(ki - kp) > 1 or not (e_rep <= 1e-9 and e_mod <= 1e-9):
+            mism += 1
+            if mism < 4:
+                ctx.fail('correspondence', 'Denman-Beavers model: implementation %d passes, replica %d; X differs by %.3g (replica) / %.3g (Coq model) relative'
+                         % (ki, kp, e_rep, e_mod), case=meta)
+        ctx.count('dbp_invariant_conclusion_checks', kp)
+        if not worst <= 1e-10:
+            ctx.fail('conclusion', 'Denman-Beavers invariant X_k^2 = A M_k violated by %.3g relative on the replica of sqrtm_dbp' % worst,
+                     case=dict(meta, check='dbp invariant'), concrete=True)
+    ctx.count('dbp_model_mismatches', mism)
+
+
 def evaluate(ctx, items):
     exprs = [e for e, _ in items if e is not None]
     res = C.coq_eval(IMPORTS, exprs, 'C12', shard=120, timeout=900)
@@ -706,6 +948,8 @@ def correspondence(ctx, model_ok):
     l1_rd(ctx)
     l2_rd(ctx)
     l1_trig(ctx)
+    l1_defl(ctx)
+    l1_dbp(ctx)
 
 
 def search(ctx, reasons):
@@ -717,6 +961,7 @@ def search(ctx, reasons):
         l2_rd(c2)
         try:
             l1_trig(c2)      # needs only the generated kernels; its residual clause yields a concrete tensor
+            l1_defl(c2)      # round 4: Vieta / eigenvector conclusions on the implementation yield a concrete tensor
         except C.CoqError:
             pass
         early = [f for f in c2.failures if f.get('concrete')]
